@@ -164,6 +164,8 @@ def step (s : St) (toks : List String) : Option (St × String × String) :=
       some (s, showSet m, showSet sp)
   | "tagrace" :: _ => some (s, "consistent", "consistent")   -- runtime monitor: Tag racing Delete
   | "pushdelrace" :: _ => some (s, "linearizable", "linearizable")   -- runtime monitor: Push racing Delete of one manifest
+  | "tagreopen" :: _ => some (s, "complete", "complete")   -- runtime monitor: concurrent tags, then a reopened store knows every name
+  | "junkpush" :: _ => some (s, "intact", "intact")      -- a refused manifest push leaves index.json and the directory as they were
   | "pushreopen" :: _ => some (s, "complete", "complete")   -- runtime monitor: concurrent pushes, then a reopened store knows them all
   | "overlap" :: rest => do
       -- two pushes of one descriptor that overlap in time.  Specification: in either
